@@ -1,4 +1,5 @@
 import Zrnt.Beacon.Ctx
+import Proofs.Lemmas.Committees
 /-! Lemmas for C08: what an epoch may write to the inputs of shufflings and seeds (`EpochWrites`), and the
 stability of active sets and seeds under such writes. -/
 namespace Zrnt.Proofs.Ctx
@@ -561,6 +562,70 @@ theorem proposersOf_mem {st : State} {e : Nat} {active : List Nat} {p : Proposer
     · rename_i ps hps
       cases h
       exact mapM_ok_forall _ _ (fun x _ y hy => compute_proposer_index_mem hy) hps
+
+theorem resMapM_ok_forall {α β : Type} {f : α → Res β} {P : β → Prop} (l : List α) (out : List β)
+    (hf : ∀ x ∈ l, ∀ y, f x = .ok y → P y) (h : l.mapM f = .ok out) : ∀ y ∈ out, P y := by
+  obtain ⟨hlen, hget⟩ := Zrnt.Proofs.Committees.mapM_ok_getElem f l out h
+  intro y hy
+  obtain ⟨i, hi, rfl⟩ := List.mem_iff_getElem.mp hy
+  exact hf l[i] (List.getElem_mem (by omega)) _ (hget i (by omega) hi)
+
+/-- every member of a committee computed by the specification is a member of the index list it was cut from -/
+theorem compute_committee_mem {indices : List Nat} {seed : Bytes} {index count : Nat} {out : List Nat}
+    (h : Committees.Spec.compute_committee Spec.hash (cfgC cfg) indices seed index count = .ok out) :
+    ∀ v ∈ out, v ∈ indices := by
+  unfold Committees.Spec.compute_committee at h
+  split at h
+  · cases h
+  · refine resMapM_ok_forall _ _ ?_ h
+    intro i _ y hy
+    split at hy
+    · split at hy
+      · rename_i s hs v hv
+        cases hy
+        exact List.mem_of_getElem? hv
+      · cases hy
+    · cases hy
+
+theorem shuffledAt_mem {active : List Nat} {seed : Bytes} {j v : Nat}
+    (h : shuffledAt cfg active seed j = .ok v) : v ∈ active := by
+  unfold shuffledAt at h
+  split at h
+  · rename_i k hk
+    unfold idx at h
+    split at h
+    · rename_i a ha; cases h; exact List.mem_of_getElem? ha
+    · cases h
+  · cases h
+
+/-- all entries of a shuffling — the shuffled list and every committee — are members of its active list -/
+theorem shufflingOfParts_mem {e : Nat} {active : List Nat} {seed : Bytes} {s : ShufflingEpoch}
+    (h : shufflingOfParts cfg e active seed = .ok s) :
+    (∀ v ∈ s.shuffling, v ∈ active) ∧ (∀ slot ∈ s.committees, ∀ committee ∈ slot, ∀ v ∈ committee, v ∈ active) := by
+  unfold shufflingOfParts at h
+  simp only [bind, Except.bind, pure, Except.pure] at h
+  split at h
+  · cases h
+  · rename_i sh hsh
+    split at h
+    · cases h
+    · rename_i cs hcs
+      cases h
+      refine ⟨mapM_ok_forall _ _ (fun x _ y hy => shuffledAt_mem hy) hsh, ?_⟩
+      refine mapM_ok_forall (P := fun slot => ∀ committee ∈ slot, ∀ v ∈ committee, v ∈ active) _ _ ?_ hcs
+      intro slot _ comms hcomms
+      refine mapM_ok_forall (P := fun committee => ∀ v ∈ committee, v ∈ active) _ _ ?_ hcomms
+      intro index _ c hc
+      exact compute_committee_mem (liftRes_ok hc)
+
+theorem shufflingOf_mem {st : State} {e : Nat} {s : ShufflingEpoch} (h : shufflingOf cfg st e = .ok s) :
+    (∀ v ∈ s.shuffling, v ∈ get_active_validator_indices st e) ∧
+    (∀ slot ∈ s.committees, ∀ committee ∈ slot, ∀ v ∈ committee, v ∈ get_active_validator_indices st e) := by
+  unfold shufflingOf at h
+  simp only [bind, Except.bind] at h
+  split at h
+  · cases h
+  · exact shufflingOfParts_mem h
 
 /-! ### soundness of the executable step checks -/
 
